@@ -195,14 +195,14 @@ def rule_3(ctx):
         r = Rec(cls=XLT + 'Text', value=s)
         return r
     for base, good, bad, long_ in (('bin', '101', '102', '1' * 11), ('oct', '17', '18', '7' * 11), ('hex', '1F', '1G', 'F' * 11)):
-        for s, want in ((good, 'ok'), (bad, 'num'), (long_, 'num'), ('1.0', 'num'), ('+1', 'num'), (' 1', 'num'), ('1_0', 'num')):
+        for s, want in ((good, 'ok'), (bad, 'num'), (long_, 'num'), ('1.0', 'num'), ('+1', 'num'), (' 1', 'num'), ('1_0', 'num'),
+                        ('false', 'num'), ('FALSE', 'num'), ('true', 'num'), ('', 'zero')):
             it = Interp(ctx.a, em, {phn[0]: text(s), phn[1]: B[base]}, isinstance_fn=isinst,
                         call_models={'builtin:str': lambda v: v.get('value') if isinstance(v, Rec) else str(v)})
-            # truthiness of a Text record: non-empty
-            it.truth = lambda v, _t=it.truth: (bool(v.get('value')) if isinstance(v, Rec) and 'value' in v.f else Interp.truth(v))
+            it.dunder_truth = True      # truth value of the Text instance: its own __bool__ ("false" is falsy!)
             out = it.run(hn.body)
             raised = out.end == 'raise' and isinstance(out.value, Ref) and out.value.ref == XLERR + 'NumExcelError'
-            ok = raised if want == 'num' else (out.end == 'return' and out.value == s)
+            ok = raised if want == 'num' else (out.end == 'return' and out.value == (s or '0'))
             ctx.expect(ok, hn, f'handle_number({s!r}, {base})',
                        f'the digit string {s!r} for base {base} gives {out.end} {out.value!r}, expected '
                        f'{"#NUM! (invalid digit, sign, blank, separator or more than 10 digits)" if want == "num" else "acceptance"}')
